@@ -29,6 +29,8 @@ type vzDisk struct {
 	writes               int                 // completed writes, all stores
 	commits              map[uint64][]string // every hash ever saved as committed, per height, in order
 	commitCH             map[uint64]tmconsensus.CommittedHeader
+	replayedSaved        map[string]uint64 // headers written through SaveRoundReplayedHeader (hash -> height)
+	replayAccepted       map[string]bool   // headers whose replay the engine answered without error
 	enteredRound         map[uint64]uint32 // highest round the state machine has entered per height, across incarnations (oracle bookkeeping)
 	commitDigest         map[uint64]string // what was saved, as a value (hash, proof round, signer key ids and signatures per target)
 	nhr                  [][4]uint64       // every network height/round ever set
@@ -167,6 +169,10 @@ func (s vzRoundStore) SaveRoundReplayedHeader(ctx context.Context, h tmconsensus
 	if err := s.gate(ctx, "SaveRoundReplayedHeader"); err != nil {
 		return err
 	}
+	if s.d.replayedSaved == nil {
+		s.d.replayedSaved = map[string]uint64{}
+	}
+	s.d.replayedSaved[string(h.Hash)] = h.Height
 	return s.d.round.SaveRoundReplayedHeader(ctx, h)
 }
 func (s vzRoundStore) OverwriteRoundPrevoteProofs(ctx context.Context, h uint64, r uint32, p tmconsensus.SparseSignatureCollection) error {
